@@ -38,6 +38,7 @@ class SchedConfig:
         #                               other worker has finished (the classic "hold one worker at a chosen point" schedule)
         self.count_io = count_io
         self.io_counts = {}           # task index -> number of file-touching line events seen (for placing delays)
+        self.io_sites = {}            # task index -> [source site "file:line" of each such event] (count_io pre-pass only)
         self.mm_writes = []           # (worker, task, key-summary) history of memmap stores
         self.calls = 0
         self.n_workers_used = []
@@ -216,6 +217,41 @@ def _io_adjacent(frame):
     return frame.f_lineno in tab
 
 
+def hold_index(d, sites):
+    """Index (among the file-touching line events of a task) at which the task is held.  `sites` is the source site
+    of each such event, from the counting pre-pass.  where='site': every distinct source line gets the same chance
+    (one `truncate` line weighs as much as a loop body executed 200 times), then its first / last / a seeded occurrence;
+    'start' / 'end': the first / last few events; 'any': uniform over events."""
+    cnt = len(sites)
+    if cnt == 0:
+        return 0
+    w = d.get("where", "any")
+    span = min(8, cnt)
+    if w == "end":
+        return cnt - 1 - int(d["ef"] * span)
+    if w == "start":
+        return int(d["ef"] * span)
+    if w == "site":
+        distinct = sorted(set(sites))
+        site = distinct[min(len(distinct) - 1, int(d.get("sf", 0.5) * len(distinct)))]
+        occ = [i for i, x in enumerate(sites) if x == site]
+        o = d.get("occ", "first")
+        return occ[0] if o == "first" else occ[-1] if o == "last" else occ[min(len(occ) - 1, int(d["ef"] * len(occ)))]
+    return min(cnt - 1, int(d["ef"] * cnt))
+
+
+def hold_candidates(sites_by_task):
+    """For sweeps: the first and the last occurrence of every distinct source site of every task."""
+    out = []
+    for t in sorted(sites_by_task):
+        seen = {}
+        for i, x in enumerate(sites_by_task[t]):
+            seen.setdefault(x, [i, i])[1] = i
+        idx = sorted({i for fl in seen.values() for i in fl})
+        out += [(t, i) for i in idx]
+    return out
+
+
 class _Worker:
     def __init__(self, idx, par):
         self.idx = idx
@@ -264,6 +300,9 @@ class _Worker:
                         if io:
                             k = SCHED.io_counts.get(_w.task, 0)
                             SCHED.io_counts[_w.task] = k + 1
+                            if SCHED.count_io:
+                                co_ = frame.f_code
+                                SCHED.io_sites.setdefault(_w.task, []).append(f"{co_.co_filename.rsplit('/', 1)[-1]}:{co_.co_name}:{frame.f_lineno - co_.co_firstlineno}")
                             dl = SCHED.delay
                             if dl is not None and dl["task"] == _w.task and dl["at"] == k and not _w.par.abort:
                                 dl["reached"] = True
